@@ -1,8 +1,10 @@
 // Harness area "frame": runs the real frame / message / primitive / datatype code of /repo (properties C01-C05, C20).
 // The contract of the output is notes/frame-harness.md.
 //
-//	harness-frame gen <n> [thorough]        version-valid frames: deterministic enumeration, sweeps, then n seeded random cases
-//	harness-frame malformed <n> [thorough]  structure-aware mutations of valid encodings through the four decoding entry points
+//	harness-frame gen <n> [thorough]        version-valid frames: corpus, deterministic enumeration, sweeps, non-valid frames
+//	                                        ("valid": false), then n seeded random cases
+//	harness-frame malformed <n> [thorough]  structure-aware mutations of valid encodings through the four decoding entry
+//	                                        points: the fixed header mutations, then about n records (input x entry point)
 //	harness-frame mutators <n>              sequences of frame mutators (C20) and of Startup accessors
 //	harness-frame selftest                  a Coq file with one populated term of every message kind and data type
 //	harness-frame one <entry> <version> <compression> <hex>   a single malformed case in this process (replay)
